@@ -31,14 +31,14 @@ CONTENTS = {
     "reshape-error": GOOD[:-1] + ["2 20 30"],
     "with-bom-free-nonascii": GOOD[:4] + ["COMP. café : c"] + GOOD[4:],
 }
-CALLS = ["read-str", "read-path", "read-noautodetect", "read-encoding", "write-path", "csv-path", "write-fileobj", "csv-fileobj", "write-path-badversion", "csv-path-badoption", "csv-path-badoption2"]
+CALLS = ["read-str", "read-path", "read-noautodetect", "read-encoding", "write-path", "csv-path", "write-fileobj", "csv-fileobj", "write-path-badversion", "csv-path-badoption", "csv-path-badoption2", "csv-path-ragged", "write-path-ragged", "csv-path-empty", "write-path-empty"]
 BOUNDS = {
     "quick": {"calls": CALLS, "contents": ["clean", "no-sections", "bad-header-line", "reshape-error"], "fault_kinds": ["OSError"], "task_budget_s": 600},
     "thorough": {"calls": CALLS, "contents": list(CONTENTS), "fault_kinds": ["OSError", "UnicodeDecodeError"], "task_budget_s": 1800},
 }
 ASSUMPTIONS = [
     "file system, open/io.open, os.path.getsize and chardet are stubs; a fault is an exception raised by the k-th operation (open, read, readline, iteration step, seek, tell, write) on any handle; close() itself never faults",
-    "file contents are the listed concrete texts; the fault index is symbolic and ranges over every operation of the run plus 'no fault'; write-side input-induced exceptions: an unsupported version, csv options the csv module rejects",
+    "file contents are the listed concrete texts; the fault index is symbolic and ranges over every operation of the run plus 'no fault'; write-side input-induced exceptions: an unsupported version, csv options the csv module rejects, curves of unequal length, an object without curves",
 ]
 WITNESS_TARGETS = ["fault-injected", "no-fault-run", "input-induced-exception"]
 EXCLUSIONS = {}
@@ -160,9 +160,9 @@ def _do_call(nsL, call, fs, las_for_write):
             nsL.las.LASFile().read("data.las", engine="normal", autodetect_encoding=False)
         elif call == "read-encoding":
             nsL.las.LASFile().read("data.las", engine="normal", encoding="latin-1")
-        elif call == "write-path":
+        elif call in ("write-path", "write-path-ragged", "write-path-empty"):
             las_for_write.write("out.las", version=2.0)
-        elif call == "csv-path":
+        elif call in ("csv-path", "csv-path-ragged", "csv-path-empty"):
             las_for_write.to_csv("out.csv")
         elif call == "write-path-badversion":
             las_for_write.write("out.las", version=3.0)  # rejected by the writer (AssertionError)
@@ -186,7 +186,7 @@ def _count_ops(call, content):
     fault = Fault(None, "OSError")
     fs = FS(CONTENTS[content], fault)
     nsL = loader.load_lasio(extra_shims=make_shims(fs))
-    las = _las_for_write(nsL) if not call.startswith("read") else None
+    las = _las_for_write(nsL, call) if not call.startswith("read") else None
 
     def run():
         _do_call(nsL, call, fs, las)
@@ -196,12 +196,16 @@ def _count_ops(call, content):
     return fault.count
 
 
-def _las_for_write(nsL):
+def _las_for_write(nsL, call=""):
+    """the object written: two curves; '-ragged': curves of unequal length (the data table cannot be stacked);
+    '-empty': no curves at all"""
     import numpy as np
 
     las = nsL.las.LASFile()
+    if call.endswith("-empty"):
+        return las
     las.append_curve("DEPT", np.array([1.0, 2.0, 3.0]), unit="M")
-    las.append_curve("GR", np.array([10.0, np.nan, 30.0]), unit="API")
+    las.append_curve("GR", np.array([10.0, np.nan] if call.endswith("-ragged") else [10.0, np.nan, 30.0]), unit="API")
     return las
 
 
@@ -219,7 +223,7 @@ def harness(ns, params):
         if not call.startswith("read"):
             # building the object must not consume fault slots
             fault.k = None
-            las = _las_for_write(nsL)
+            las = _las_for_write(nsL, call)
             fault.k = k
             fault.count = 0
         c = core.ctx()
@@ -260,9 +264,10 @@ def replay(i):
     shims = make_shims(fs)
     las = None
     if not call.startswith("read"):
-        las = lasio.LASFile()
-        las.append_curve("DEPT", np.array([1.0, 2.0, 3.0]), unit="M")
-        las.append_curve("GR", np.array([10.0, np.nan, 30.0]), unit="API")
+        class NS0(object):
+            las = lasio.las
+
+        las = _las_for_write(NS0, call)
     fault.k = k
     fault.count = 0
 
